@@ -1,7 +1,381 @@
-// Package c01 interprets the C01 op language against the real packages (stub).
+// Package c01 interprets the C01 op language against the real packages: api.Entry / api.TraceError /
+// SentinelEntry.Exit through the global slot chain or through custom chains assembled from a behaviour
+// table (real ResourceNodePrepareSlot and stat.DefaultSlot wrapped to get a position, no-op / panicking
+// prepare slots, nil / pass / block / panicking rule slots, recording statistic slots).
+//
+// Times in op lines are milliseconds relative to the case start; every case gets its own epoch, more
+// than one whole array interval after anything the previous case did (the inbound node is process wide).
 package c01
 
-import "verifharness/internal/vh"
+import (
+	"fmt"
+	"runtime"
+	"runtime/debug"
+	"strconv"
+	"strings"
 
-// New returns the interpreter for C01.
-func New() vh.Interp { return nil }
+	sentinel "github.com/alibaba/sentinel-golang/api"
+	"github.com/alibaba/sentinel-golang/core/base"
+	"github.com/alibaba/sentinel-golang/core/flow"
+	"github.com/alibaba/sentinel-golang/core/hotspot"
+	"github.com/alibaba/sentinel-golang/core/isolation"
+	"github.com/alibaba/sentinel-golang/core/stat"
+	"verifharness/internal/vh"
+)
+
+const (
+	epoch0  = uint64(1900000000000)
+	inbound = "__inbound__"
+)
+
+type tagErr struct{ tag string }
+
+func (e *tagErr) Error() string { return e.tag }
+
+func errTag(err error) string {
+	if err == nil {
+		return "nil"
+	}
+	if t, ok := err.(*tagErr); ok {
+		return t.tag
+	}
+	return "panic" // the only foreign error is the one SlotChain.Entry's recover stores
+}
+
+type ent struct {
+	e       *base.SentinelEntry // nil: blocked
+	exited  bool
+	blocked bool
+}
+
+type Interp struct {
+	clk    *vh.Clock
+	base   uint64 // epoch of the current case (multiple of 10000)
+	maxRel uint64
+	ents   map[string]*ent
+	order  []string
+	chains map[string]*base.SlotChain
+	log    []string
+	iso    []*isolation.Rule
+	hot    []*hotspot.Rule
+}
+
+func New() vh.Interp {
+	runtime.GOMAXPROCS(1)
+	runtime.LockOSThread()
+	debug.SetGCPercent(-1)
+	vh.Silence()
+	it := &Interp{clk: vh.NewClock(epoch0), base: epoch0}
+	it.ents = map[string]*ent{}
+	it.chains = map[string]*base.SlotChain{}
+	return it
+}
+
+func (it *Interp) Reset() {
+	// finish what the previous case left in flight (contexts go back to the pool, gauges are balanced)
+	for i := len(it.order) - 1; i >= 0; i-- {
+		x := it.ents[it.order[i]]
+		if x.e != nil && !x.exited {
+			x.e.Exit()
+		}
+	}
+	// the inbound node is package level: bring its gauge back to zero (a recovered panic leaves it off by one)
+	in := stat.InboundNode()
+	for in.CurrentConcurrency() < 0 {
+		in.IncreaseConcurrency()
+	}
+	for in.CurrentConcurrency() > 0 {
+		in.DecreaseConcurrency()
+	}
+	_ = flow.ClearRules()
+	_ = isolation.ClearRules()
+	_ = hotspot.ClearRules()
+	stat.ResetResourceNodeMap()
+	it.ents = map[string]*ent{}
+	it.order = nil
+	it.log = nil
+	it.iso, it.hot = nil, nil
+	// new epoch: at least two array intervals after the last instant used
+	it.base += (it.maxRel/10000 + 3) * 10000
+	it.maxRel = 0
+	it.clk.SetMs(it.base)
+}
+
+// --- custom slots ---------------------------------------------------------------------------
+
+type prepSlot struct {
+	order uint32
+	kind  byte
+}
+
+func (s *prepSlot) Order() uint32 { return s.order }
+func (s *prepSlot) Prepare(ctx *base.EntryContext) {
+	switch s.kind {
+	case 'N':
+		stat.DefaultResourceNodePrepareSlot.Prepare(ctx)
+	case 'x':
+		panic("prepare slot panics")
+	}
+}
+
+type ruleSlot struct {
+	order uint32
+	kind  byte
+}
+
+func (s *ruleSlot) Order() uint32 { return s.order }
+func (s *ruleSlot) Check(ctx *base.EntryContext) *base.TokenResult {
+	switch s.kind {
+	case 'n':
+		return nil
+	case 'p':
+		return ctx.RuleCheckResult
+	case 'b':
+		return base.NewTokenResultBlocked(base.BlockTypeFlow)
+	}
+	panic("rule slot panics")
+}
+
+type stdSlot struct{ order uint32 }
+
+func (s *stdSlot) Order() uint32                      { return s.order }
+func (s *stdSlot) OnEntryPassed(c *base.EntryContext) { stat.DefaultSlot.OnEntryPassed(c) }
+func (s *stdSlot) OnEntryBlocked(c *base.EntryContext, b *base.BlockError) {
+	stat.DefaultSlot.OnEntryBlocked(c, b)
+}
+func (s *stdSlot) OnCompleted(c *base.EntryContext) { stat.DefaultSlot.OnCompleted(c) }
+
+type recSlot struct {
+	order uint32
+	id    int
+	it    *Interp
+}
+
+func (s *recSlot) Order() uint32 { return s.order }
+func (s *recSlot) OnEntryPassed(c *base.EntryContext) {
+	s.it.log = append(s.it.log, fmt.Sprintf("P/%d/%s/%d/%s", s.id, c.Resource.Name(), c.Input.BatchCount, strings.Join(showArgs(c.Input.Args), "+")))
+}
+func (s *recSlot) OnEntryBlocked(c *base.EntryContext, b *base.BlockError) {
+	s.it.log = append(s.it.log, fmt.Sprintf("B/%d/%s/%d", s.id, c.Resource.Name(), c.Input.BatchCount))
+}
+func (s *recSlot) OnCompleted(c *base.EntryContext) {
+	rt := s.it.clk.CurrentTimeMillis() - c.StartTime()
+	s.it.log = append(s.it.log, fmt.Sprintf("C/%d/%s/%d/%s/%d", s.id, c.Resource.Name(), c.Input.BatchCount, errTag(c.Err()), rt))
+}
+
+func (it *Interp) chain(spec string) *base.SlotChain {
+	if spec == "default" {
+		return nil // api.Entry falls back to the global chain
+	}
+	if sc, ok := it.chains[spec]; ok {
+		return sc
+	}
+	p := strings.Split(spec, "/")
+	if len(p) != 4 || p[0] != "c" {
+		panic("bad chain " + spec)
+	}
+	sc := base.NewSlotChain()
+	if p[1] != "-" {
+		for i := 0; i < len(p[1]); i++ {
+			sc.AddStatPrepareSlot(&prepSlot{order: uint32(10 * (i + 1)), kind: p[1][i]})
+		}
+	}
+	if p[2] != "-" {
+		for i := 0; i < len(p[2]); i++ {
+			sc.AddRuleCheckSlot(&ruleSlot{order: uint32(10 * (i + 1)), kind: p[2][i]})
+		}
+	}
+	if p[3] != "-" {
+		for i := 0; i < len(p[3]); i++ {
+			if p[3][i] == 'S' {
+				sc.AddStatSlot(&stdSlot{order: uint32(10 * (i + 1))})
+			} else {
+				sc.AddStatSlot(&recSlot{order: uint32(10 * (i + 1)), id: int(p[3][i] - '0'), it: it})
+			}
+		}
+	}
+	it.chains[spec] = sc
+	return sc
+}
+
+// --- values ------------------------------------------------------------------------------------
+
+func parseArg(s string) interface{} {
+	switch {
+	case strings.HasPrefix(s, "i:"):
+		return int(vh.I(s[2:]))
+	case strings.HasPrefix(s, "u:"):
+		return []string{s[2:]} // unhashable
+	case strings.HasPrefix(s, "s:"):
+		return s[2:]
+	}
+	panic("bad arg " + s)
+}
+
+func showArgs(xs []interface{}) []string {
+	out := make([]string, 0, len(xs))
+	for _, x := range xs {
+		switch v := x.(type) {
+		case int:
+			out = append(out, "i:"+strconv.Itoa(v))
+		case string:
+			out = append(out, "s:"+v)
+		case []string:
+			out = append(out, "u:"+strings.Join(v, "?"))
+		default:
+			out = append(out, fmt.Sprintf("?%T", x))
+		}
+	}
+	return out
+}
+
+func ev(s string) base.MetricEvent {
+	switch s {
+	case "pass":
+		return base.MetricEventPass
+	case "block":
+		return base.MetricEventBlock
+	case "complete":
+		return base.MetricEventComplete
+	case "error":
+		return base.MetricEventError
+	case "rt":
+		return base.MetricEventRt
+	}
+	panic("bad event " + s)
+}
+
+func mkErr(tag string) error {
+	if tag == "nil" {
+		return nil
+	}
+	return &tagErr{tag}
+}
+
+func node(key string) *stat.ResourceNode {
+	if key == inbound {
+		return stat.InboundNode()
+	}
+	return stat.GetResourceNode(key)
+}
+
+// --- ops ---------------------------------------------------------------------------------------
+
+func (it *Interp) Step(t []string, op string) string {
+	switch t[0] {
+	case "clock":
+		rel := vh.U(t[1])
+		if rel > it.maxRel {
+			it.maxRel = rel
+		}
+		it.clk.SetMs(it.base + rel)
+		return ""
+	case "rule":
+		switch t[1] {
+		case "iso":
+			it.iso = append(it.iso, &isolation.Rule{Resource: t[2], MetricType: isolation.Concurrency, Threshold: uint32(vh.U(t[3]))})
+			if _, err := isolation.LoadRules(it.iso); err != nil {
+				panic(err)
+			}
+		case "hot":
+			it.hot = append(it.hot, &hotspot.Rule{Resource: t[2], MetricType: hotspot.QPS, ControlBehavior: hotspot.Reject,
+				ParamIndex: 0, Threshold: 1 << 40, DurationInSec: 1})
+			if _, err := hotspot.LoadRules(it.hot); err != nil {
+				panic(err)
+			}
+		default:
+			panic("bad rule " + op)
+		}
+		return ""
+	case "entry":
+		id, res := t[1], t[2]
+		if _, dup := it.ents[id]; dup {
+			panic("duplicate id")
+		}
+		opts := []sentinel.EntryOption{sentinel.WithBatchCount(uint32(vh.U(t[4])))}
+		if t[3] == "in" {
+			opts = append(opts, sentinel.WithTrafficType(base.Inbound))
+		} else {
+			opts = append(opts, sentinel.WithTrafficType(base.Outbound))
+		}
+		if sc := it.chain(t[5]); sc != nil {
+			opts = append(opts, sentinel.WithSlotChain(sc))
+		}
+		n := int(vh.U(t[6]))
+		if n > 0 {
+			args := make([]interface{}, 0, n)
+			for _, a := range t[7 : 7+n] {
+				args = append(args, parseArg(a))
+			}
+			opts = append(opts, sentinel.WithArgs(args...))
+		}
+		e, b := sentinel.Entry(res, opts...)
+		x := &ent{e: e}
+		it.ents[id] = x
+		it.order = append(it.order, id)
+		switch {
+		case e != nil && b == nil:
+			return "pass"
+		case e == nil && b != nil:
+			x.blocked = true
+			return "block"
+		}
+		return "both-or-neither" // "exactly one outcome" is part of the property
+	case "trace":
+		x := it.ents[t[1]]
+		sentinel.TraceError(x.e, mkErr(t[2]))
+		return ""
+	case "exit":
+		x := it.ents[t[1]]
+		if x.e == nil {
+			return "" // the caller holds no entry for a blocked request
+		}
+		if len(t) > 2 {
+			x.e.Exit(base.WithError(mkErr(t[2])))
+		} else {
+			x.e.Exit()
+		}
+		x.exited = true
+		return ""
+	case "read":
+		n := node(t[1])
+		if n == nil {
+			return "nil"
+		}
+		switch t[2] {
+		case "sum":
+			return fmt.Sprint(n.GetSum(ev(t[3])))
+		case "sum10":
+			m, err := n.GenerateReadStat(20, 10000)
+			if err != nil {
+				panic(err)
+			}
+			return fmt.Sprint(m.GetSum(ev(t[3])))
+		case "conc":
+			return fmt.Sprint(n.CurrentConcurrency())
+		case "maxconc":
+			return fmt.Sprint(n.MaxConcurrency())
+		case "minrt":
+			return fmt.Sprint(int64(n.MinRT()))
+		}
+	case "ctx":
+		x := it.ents[t[1]]
+		if x.blocked {
+			return "nil"
+		}
+		if x.exited {
+			return "exited" // the context may already serve another entry: not an observable of this one
+		}
+		switch t[2] {
+		case "err":
+			return errTag(x.e.Context().Err())
+		case "args":
+			return vh.List(showArgs(x.e.Context().Input.Args))
+		}
+	case "reclog":
+		r := vh.List(it.log)
+		it.log = nil
+		return r
+	}
+	panic("bad op " + op)
+}
